@@ -107,6 +107,7 @@ var whitelist = []FuncSpec{
 	{"pkg/provider", "IdentityProviderConfig", "getMetadata"},
 	{"pkg/provider", "IdentityProvider", "GetEntityID"},
 	{"pkg/provider", "IdentityProvider", "GetMetadata"},
+	{"pkg/provider", "", "createRedirectSignature"},
 }
 
 // standaloneOnly: translated for theorems of their own; callers keep consulting the (legacy) oracle of the same name, so
@@ -114,7 +115,8 @@ var whitelist = []FuncSpec{
 // combine them: the oracle's answers are the generated function's)
 var standaloneOnly = map[string]bool{"pkg/provider/serviceprovider.ServiceProvider.ValidateRedirectSignature": true,
 	"pkg/provider/xml.DecodeAuthNRequest": true, "pkg/provider/xml.DecodeLogoutRequest": true,
-	"pkg/provider.IdentityProviderConfig.getMetadata": true, "pkg/provider.IdentityProvider.GetEntityID": true, "pkg/provider.IdentityProvider.GetMetadata": true}
+	"pkg/provider.IdentityProviderConfig.getMetadata": true, "pkg/provider.IdentityProvider.GetEntityID": true, "pkg/provider.IdentityProvider.GetMetadata": true,
+	"pkg/provider.createRedirectSignature": true}
 
 // extraFields are struct fields the hand-written handler models read although no translated function does.
 var extraFields = map[string][]string{
@@ -1478,7 +1480,7 @@ var storageEffects = map[string]bool{"CreateAuthRequest": true}
 var outParamMethods = map[string]int{"SetUserinfoWithUserID": 1, "SetUserinfoWithLoginName": 0}
 
 // funcOracles: untranslated package-level functions that may be called as oracles (typed by their Go signature)
-var funcOracles = map[string]bool{"createRedirectSignature": true, "createPostSignature": true, "Marshal": true, "DeflateAndBase64": true, "DecodeLogoutRequest": true, "DecodeAuthNRequest": true, "DecodeAttributeQuery": true, "GetSigner": true, "Create": true, "ValidateRedirect": true, "IssuerFromContext": true}
+var funcOracles = map[string]bool{"createRedirectSignature": true, "createPostSignature": true, "Marshal": true, "DeflateAndBase64": true, "DecodeLogoutRequest": true, "DecodeAuthNRequest": true, "DecodeAttributeQuery": true, "GetSigner": true, "Create": true, "ValidateRedirect": true, "IssuerFromContext": true, "ParseTlsKeyPair": true, "GetSigningContext": true, "CreateRedirect": true}
 
 // scanInout finds the pointer parameters of f that the body assigns through, directly or by passing them to a
 // translated callee that does (callees are translated first: whitelist order).
